@@ -23,6 +23,7 @@ import time
 from pathlib import Path
 
 import vlib
+import gen_pitzer
 from gens import gamma as G
 
 LN10 = math.log(10.0)
@@ -505,8 +506,8 @@ def pz_model_block(pz):
     n = len(pz["sp"])
     if pz["kind"] == "pitzer":
         ic = pos.get(pz["ic"], n)
-        L = ["pz %d %s %s %s %s %d %s %s %s %s %s" % (n, pz["mu"], pz["a0"], pz["mintot"], pz["icon"], ic, pz["ue"], pz["mcb0"],
-                                                      pz["mcb1"], pz["mcc0"], pz["tk"])]
+        L = ["pz %d %s %s %s %s %d %s %s %s %s %s %s" % (n, pz["mu"], pz["a0"], pz["mintot"], pz["icon"], ic, pz["ue"], pz["mcb0"],
+                                                      pz["mcb1"], pz["mcc0"], pz["tk"], hexd(pz["patm"]))]
         for s in pz["sp"]:
             L.append("s %s %s" % (s["z"], s["M"]))
         for p in pz["pp"]:
@@ -529,7 +530,6 @@ def judge_pz(ctx, pz, stats):
         return []
     if pz["patm"] > 1.0:
         stats["pz_patm_gt1"] += 1
-        return []
     out = pmodel(ctx, "\n".join(pz_model_block(pz)) + "\n")
     probs = []
     pc = [o.split() for o in out if o.startswith("PC")]
@@ -539,8 +539,11 @@ def judge_pz(ctx, pz, stats):
         return [{"kind": "pz-model-output", "out": out[:5]}]
     stats["pz_evals"] += 1
     stats["pz_params"] += len(pz["pp"])
+    zs = {s["idx"]: unhex(s["z"]) for s in pz["sp"]}
     for p in pz["pp"]:
         stats["pz_types"][p["type"]] = stats["pz_types"].get(p["type"], 0) + 1
+        if pz["kind"] == "sit" and zs.get(p["i"][0]) == 0.0 and zs.get(p["i"][1]) == 0.0:
+            stats["sit_neutral_pairs"] = stats.get("sit_neutral_pairs", 0) + 1
     if pz["kind"] == "pitzer":
         for c, p in zip(pc, pz["pp"]):
             if p["type"] in (5, 10):       # LAMBDA, MU: multipliers set by pitzer_tidy
@@ -768,7 +771,15 @@ def new_stats():
 
 
 def run(ctx):
-    ok = ctx.prove(["PhreeqcVerif.Properties.C16"])
+    # translator first: the statements of the modelled functions, regenerated from the current source
+    gen_ok = True
+    try:
+        ctx.cov["translator_gen_pitzer"] = gen_pitzer.generate(ctx)
+    except Exception as e:      # shape not recognised: fail closed (protocol P)
+        gen_ok = False
+        ctx.proof_broken.append({"stage": "translator tools/gen_pitzer.py", "error": str(e)[:500]})
+        ctx.log("PROOF BROKEN: translator:", str(e)[:200])
+    ok = ctx.prove(["PhreeqcVerif.Properties.C16"]) and gen_ok
     pm_setup(ctx)
     try:
         run_checks(ctx, ok)
@@ -873,7 +884,8 @@ def run_checks(ctx, ok):
         "gd_path_kinds": stats["gd_label"], "gd_temperature_histogram": stats["gd_temp_hist"], "gd_points_needed": stats["gd_npts"],
         "gd_max_relative_residual": stats["gd_max_rel"],
         "gd_max_relative_residual_after_A0_correction": stats["gd_max_rel_corr"], "gd_worst_path": stats.get("gd_worst"), "log10_sum_m_histogram_-4..1": stats["sum_m_hist"],
-        "skipped_patm_gt_1": stats["pz_patm_gt1"]}
+        "evaluations_with_patm_gt_1": stats["pz_patm_gt1"],
+        "sit_neutral_neutral_pairs_evaluated": stats.get("sit_neutral_pairs", 0)}
     if stats["db_load_failed"]:
         ctx.cov["databases_not_loaded"] = stats["db_load_failed"]
     ctx.cov["traces_validated_against_impl"] = stats["judged_runs"] + stats["pz_evals"]
@@ -905,6 +917,10 @@ def finding_key(b):
 def replay(ctx, data):
     ctx.build_lib()
     exe = ctx.build_harness("ph_gamma")
+    try:
+        gen_pitzer.generate(ctx)
+    except Exception as e:
+        ctx.log("translator:", str(e)[:200])
     ctx.prove(["PhreeqcVerif.Properties.C16"])
     pm_setup(ctx)
     try:
